@@ -499,6 +499,52 @@ def one_shot(model, R, scope):
     R.ok('ONE-SHOT', 'examined functions', 'concepts/', f'{n} iterable parameters tracked')
 
 
+# -- UNUSED-PARAMETER ---------------------------------------------------------------------------------------------------
+#: confirmed by reading on today's tree: parameters that are deliberately not read (protocol slots, abstract methods)
+UNUSED_OK = {
+    ('formats.base.FormatMeta.__init__', 'bases'): 'metaclass protocol',
+    ('junctors.RelationMeta.__init__', 'bases'): 'metaclass protocol',
+    ('formats.base.FormatMeta.infer_format', 'frmat'): 'kept for call compatibility, inference uses the filename only',
+    ('formats.base.Format.loadf', 'file'): 'abstract method', ('formats.base.Format.loadf', 'kwargs'): 'abstract method',
+    ('formats.base.Format.dumpf', 'file'): 'abstract method', ('formats.base.Format.dumpf', 'objects'): 'abstract method',
+    ('formats.base.Format.dumpf', 'properties'): 'abstract method', ('formats.base.Format.dumpf', 'bools'): 'abstract method',
+    ('formats.base.Format.dumpf', '_serialized'): 'abstract method', ('formats.base.Format.dumpf', 'kwargs'): 'abstract method',
+    ('formats.csv_context.Csv.dumpf', '_serialized'): 'uniform dumper signature; only python-literal uses the dict form',
+    ('formats.cxt.Cxt.dumpf', '_serialized'): 'uniform dumper signature', ('formats.table.dump_file', '_serialized'): 'uniform dumper signature',
+    ('formats.wiki_table.dump_file', '_serialized'): 'uniform dumper signature', ('formats.fimi.dump_file', '_serialized'): 'uniform dumper signature',
+    ('formats.fimi.dump_file', 'objects'): 'FIMI rows carry no labels', ('formats.fimi.dump_file', 'properties'): 'FIMI rows carry no labels',
+    ('tools.lazyproperty.__get__', 'owner'): 'descriptor protocol',
+    ('tools.write_csv', 'dialect'): 'not on any path of a claimed property (write_csv_file is what the csv format uses)',
+}
+
+
+def unused_parameters(model, R, scope):
+    """A named parameter that the function never reads: whatever the caller passes is silently dropped (typically a flag
+    that should have been forwarded to the function doing the work).  Judged on the source as written."""
+    n = 0
+    for func in scope:
+        node = func.orig if getattr(func, 'orig', None) is not None else func.node
+        a = node.args
+        names = [x.arg for x in a.posonlyargs + a.args + a.kwonlyargs] + [x.arg for x in (a.vararg, a.kwarg) if x]
+        if func.cls is not None and names and not any((chain(d) or [''])[-1] == 'staticmethod' for d in node.decorator_list):
+            names = names[1:]
+        if func.name.startswith('__') and func.name.endswith('__'):
+            # protocol methods receive what the protocol dictates (metaclass __init__(name, bases, dct), __get__(obj, owner),
+            # __exit__(*exc) ...): only the constructors of ordinary classes have parameters of their own choosing
+            meta = func.cls is not None and any((chain(b) or [''])[-1] == 'type' for b in func.cls.node.bases)
+            if meta or func.name not in ('__init__', '__new__', '__call__'):
+                continue
+        body_is_stub = all(isinstance(st, (ast.Pass, ast.Raise)) or (isinstance(st, ast.Expr) and isinstance(st.value, ast.Constant)) for st in node.body)
+        used = {x.id for x in ast.walk(node) if isinstance(x, ast.Name)}
+        for name in names:
+            n += 1
+            if name in used or name.startswith('_') and name != '_serialized' or body_is_stub or (func.key, name) in UNUSED_OK:
+                continue
+            R.bad('UNUSED-PARAMETER', func, node, f'parameter {name} is read somewhere in {func.name}', f'{name} used or forwarded',
+                  f'{name} is accepted and never read', extra={'consequence': f'the value the caller passes for {name} has no effect'})
+    R.ok('UNUSED-PARAMETER', 'examined functions', 'concepts/', f'{n} parameters scanned')
+
+
 def run(model, R):
     """Generic rules over exactly the functions the property's own rules examined (and their nested functions), so a
     defect elsewhere in the same module is reported by the property it belongs to and by no other."""
@@ -533,3 +579,4 @@ def run(model, R):
     lazy_generator(model, R, scope)
     mutate_while_iterating(model, R, scope)
     one_shot(model, R, scope)
+    unused_parameters(model, R, scope)
